@@ -5,6 +5,7 @@
 package rtsp
 
 import (
+	"github.com/cnotch/ipchub/utils/simhook"
 	"bytes"
 	"errors"
 	"fmt"
@@ -85,10 +86,12 @@ func (c *tcpConsumer) Consume(p Pack) {
 
 		p2.Write(buf, c.transport.Channels[:])
 
+		simhook.BeforeLock(&c.lockW)
 		c.lockW.Lock()
 		_, err = c.wsconn.Write(buf.Bytes())
 		c.lockW.Unlock()
 	} else {
+		simhook.BeforeLock(&c.lockW)
 		c.lockW.Lock()
 		err = p2.Write(c.conn, c.transport.Channels[:])
 		c.lockW.Unlock()
